@@ -370,9 +370,9 @@ func header(src string) string {
 	return h
 }
 
-// qfRe: the package-level names of a generated unit (functions qf<n>, constants qk<n>); they are prefixed per program
-// in the batch built by the Go toolchain.
-var qfRe = regexp.MustCompile(`\bq([fk])(\d+)\b`)
+// qfRe: the package-level names of a generated unit (functions qf<n>, constants qk<n>, named types qt<n>); they are
+// prefixed per program in the batch built by the Go toolchain.
+var qfRe = regexp.MustCompile(`\bq([fkt])(\d+)\b`)
 
 func renameSyms(body, prefix string) string { return qfRe.ReplaceAllString(body, prefix+"q${1}${2}") }
 
@@ -628,11 +628,11 @@ func main() {
 					call := fmt.Sprintf("P%d_qf%d(%s)", pi, fi, at.goText)
 					switch f.res {
 					case gInt:
-						fmt.Fprintf(&mainBody, "\trun(%d, %d, func() string { return \"i:\" + strconv.Itoa(%s) })\n", pi, ci, call)
+						fmt.Fprintf(&mainBody, "\trun(%d, %d, func() string { return \"i:\" + strconv.Itoa(int(%s)) })\n", pi, ci, call)
 					case gStr:
 						fmt.Fprintf(&mainBody, "\trun(%d, %d, func() string { return \"s:\" + hex.EncodeToString([]byte(%s)) })\n", pi, ci, call)
 					case gBool:
-						fmt.Fprintf(&mainBody, "\trun(%d, %d, func() string { return \"b:\" + strconv.FormatBool(%s) })\n", pi, ci, call)
+						fmt.Fprintf(&mainBody, "\trun(%d, %d, func() string { return \"b:\" + strconv.FormatBool(bool(%s)) })\n", pi, ci, call)
 					default:
 						fmt.Fprintf(&mainBody, "\trun(%d, %d, func() string { %s; return \"v\" })\n", pi, ci, call)
 					}
